@@ -334,6 +334,24 @@ def route_internal(tracks, wd):
         sa, sb = t.segmentation, b_tracks.segmentation
         if (sa is None) != (sb is None) or (sa is not None and not np.array_equal(sa, sb)):
             probs.append(("internal-seg", "segmentation differs", "C14/internal/seg"))
+        if not probs and sa is not None and len(a["nodes"]) % 2 and b_tracks.graph.number_of_nodes():
+            # the loaded object is edited (not saved); reading the directory again must
+            # still give what was written there
+            from funtracks.user_actions import UserDeleteNode
+
+            with warnings.catch_warnings():
+                warnings.simplefilter("ignore")
+                try:
+                    UserDeleteNode(b_tracks, next(iter(b_tracks.graph.nodes)))
+                    c_tracks = load_tracks(d, solution=True)
+                    if not np.array_equal(np.asarray(c_tracks.segmentation), np.asarray(sa)):
+                        probs.append(("internal-seg", "editing the loaded tracks changed what "
+                                      "a second load of the same directory returns",
+                                      "C14/internal/seg/second-load-after-edit"))
+                except Exception as e:
+                    probs.append(("internal-raised", f"second load after editing the loaded "
+                                  f"tracks: {type(e).__name__}: {str(e)[:200]}",
+                                  f"C14/internal/raised/second-load/{type(e).__name__}"))
         if norm(t.scale) != norm(b_tracks.scale):
             probs.append(("internal-scale", f"scale {t.scale} -> {b_tracks.scale}",
                           "C14/internal/scale"))
